@@ -40,6 +40,11 @@ def run(ctx):
     for c in impls:
         rbe_check(ctx, 'R13.4', c, ['update_seed'], 'refused seed update has already changed the stream')
     r137_live_table(ctx, impls)
+    # "its original seed" is the seed the stream was created with: nothing but the constructor may set it, whatever was seeded since
+    # (shared rule with C12)
+    from . import c12
+    for sc_ in prog.subclasses('StreamInterface'):
+        c12.r123_seed_wiring(ctx, sc_)
     from ..statrules import shared_class_state
     shared_class_state(ctx, 'R13.6', sorted(c for c, ci in prog.classes.items() if ci.module.name == 'streams'),
                        'the seed a stream receives depends on what other experiments / updaters in the same process configured, not only on its name, '
